@@ -29,13 +29,13 @@ def events(f, rename=lambda s: s, guards=True, rewrite=None):
     return ["%s %s" % (k, t) for k, t in skeleton.events(f, rename, pname=lambda n: f.local_name(n), guards=guards, rewrite=rewrite)]
 
 
-def twin(ctx, rule, prog, a, b, cfg, rename=strip_mut, post=None, what="&/&mut twins"):
+def twin(ctx, rule, prog, a, b, cfg, rename=strip_mut, post=None, what="&/&mut twins", guards=True):
     fa, fb = prog.fn(a), prog.fn(b)
     if fa is None or fb is None:
         ctx.violate(rule, a if fa is None else b, "anchor-missing", "?", "twin function not found: %s" % (a if fa is None else b), cfg)
         return False
-    ea = events(fa, rename, rewrite=_rw_take)
-    eb = events(fb, rename, rewrite=_rw_take)
+    ea = events(fa, rename, rewrite=_rw_take, guards=guards)
+    eb = events(fb, rename, rewrite=_rw_take, guards=guards)
     if post:
         eb = [post(x) for x in eb]
     ea = [re.sub(r"\bmut ", "", x) for x in ea]
@@ -70,7 +70,15 @@ def must_match(ctx, rule, prog, short, patterns, cfg, site, msg, rename=lambda s
         ctx.violate(rule, short, "anchor-missing", "?", "function not found", cfg)
         return False
     ev = events(f, rename, guards=guards, rewrite=rewrite)
-    ok = len(ev) == len(patterns) and all(re.fullmatch(p, e) for p, e in zip(patterns, ev))
+    # a pattern starting with "?" is optional (e.g. a call that one cfg arm renders by value)
+    variants = [[]]
+    for p in patterns:
+        if p.startswith("?"):
+            variants = [v + [p[1:]] for v in variants] + [list(v) for v in variants]
+        else:
+            variants = [v + [p] for v in variants]
+    ok = any(len(ev) == len(v) and all(re.fullmatch(p, e) for p, e in zip(v, ev)) for v in variants)
+    patterns = [p.lstrip("?") for p in patterns]
     if ok:
         ctx.ok(rule, short, site, "events: " + " ; ".join(e[:70] for e in ev), cfg)
         return True
